@@ -124,7 +124,7 @@ func c01Run(c lib.Case, env *lib.Env) lib.Result {
 		var wrap lib.PoolWrap
 		if s.ShortReads {
 			wrap = func(p lake.Pool) lake.Pool {
-				return &lib.ShortReadPool{Inner: p, Rng: lib.NewRng(lib.Mix(s.PairSeed, 7, uint64(ci)))}
+				return &lib.ShortReadPool{Inner: p, Rng: lib.NewRng(lib.Mix(s.PairSeed, 7, uint64(ci))), EOFWithData: ci == 1}
 			}
 		}
 		var dr *lib.DiffResult
